@@ -176,7 +176,7 @@ func (e *exec) readfault() {
 		case "close":
 			if ev.ch == first {
 				closed = true
-				if ev.err != want {
+				if !errors.Is(ev.err, want) {
 					e.fail("close event carries %v, the transport failed with %v", ev.err, want)
 				}
 			}
@@ -191,6 +191,151 @@ func (e *exec) readfault() {
 	n.Close()
 }
 
+// wrfault: a fault SEQUENCE: the j-th write fails (the channel survives that, C13), later the
+// read side fails: the close event must carry the error that ended the channel.
+var errWrite = errors.New("injected write failure")
+
+func (e *exec) wrfault() {
+	p := e.p
+	errs := []error{io.EOF, errReset, errCustom}
+	want := errs[vmc.Choose(3, "read-error-kind")]
+	nw := 1 + vmc.Choose(3, "writes")
+	j := 1 + vmc.Choose(nw, "write-fails-at")
+	all := vmc.Choose(2, "every-later-write-fails") == 1
+	var lst *vnet.FakeListener
+	c := &vnet.FakeConn{Name: "conn", WriteFailAt: j, WriteErr: errWrite, WriteFailAll: all}
+	n := &gomavlib.Node{Dialect: sx.Dialect(), OutVersion: gomavlib.V2, OutSystemID: 10, HeartbeatDisable: true,
+		IdleTimeout: 500 * time.Second, ReadTimeout: 7 * time.Second}
+	switch p.Kind {
+	case "custom":
+		c.InErrOnce = true
+		n.Endpoints = []gomavlib.EndpointConf{gomavlib.EndpointCustom{ReadWriteCloser: c}}
+	case "serial":
+		ss := &sx.SerialScript{Conns: []*vnet.FakeConn{{Name: "probe"}, c}}
+		ss.Install()
+		n.Endpoints = []gomavlib.EndpointConf{gomavlib.EndpointSerial{Device: "/dev/ttyFAKE", Baud: 57600}}
+	case "tcpclient":
+		ds := &sx.DialScript{Results: []*vnet.FakeConn{c}}
+		ds.Install()
+		n.Endpoints = []gomavlib.EndpointConf{gomavlib.EndpointTCPClient{Address: "1.2.3.4:5600"}}
+	case "tcpserver":
+		l := &vnet.FakeListener{Name: "lst"}
+		vnet.ListenHook = func(network, address string) (net.Listener, error) { return l, nil }
+		n.Endpoints = []gomavlib.EndpointConf{gomavlib.EndpointTCPServer{Address: "0.0.0.0:5600"}}
+		c.Remote = "9.9.9.1:1000"
+		lst = l
+	}
+	if err := n.Initialize(); err != nil {
+		e.fail("Initialize: %v", err)
+		return
+	}
+	vmc.GoApp("consumer", func() { e.consume(n) })
+	if lst != nil {
+		lst.Connect(c)
+	}
+	vmc.AddWake(vmc.Epoch.Add(10*time.Second), "opened-or-horizon")
+	vmc.Await("channel open", func() bool {
+		for _, ev := range e.evs {
+			if ev.what == "open" {
+				return true
+			}
+		}
+		return vmc.NowNS() >= int64(10*time.Second)
+	})
+	for i := 0; i < nw; i++ {
+		if err := n.WriteMessageAll(&common.MessageHeartbeat{Type: 2, CustomMode: uint32(i)}); err != nil {
+			e.fail("WriteMessageAll: %v", err)
+		}
+	}
+	vmc.AddWake(vmc.Epoch.Add(20*time.Second), "written-or-horizon")
+	vmc.Await("writes reached the transport", func() bool { return c.WriteCalls >= nw || vmc.NowNS() >= int64(20*time.Second) })
+	if c.WriteCalls < nw {
+		e.fail("only %d of %d writes reached the transport (write %d failed)", c.WriteCalls, nw, j)
+	}
+	sleepUntil(time.Duration(vmc.NowNS()) + time.Second)
+	for _, ev := range e.evs {
+		if ev.what == "close" {
+			e.fail("channel closed (%v) although only a write failed and the read side is healthy", ev.err)
+		}
+	}
+	c.FailRead(want)
+	sleepUntil(time.Duration(vmc.NowNS()) + time.Second)
+	closed := false
+	for _, ev := range e.evs {
+		if ev.what == "close" && !closed {
+			closed = true
+			if !errors.Is(ev.err, want) {
+				e.fail("close event carries %v, but the channel ended because the read side failed with %v (write %d of %d had failed earlier)", ev.err, want, j, nw)
+			}
+		}
+	}
+	if !closed {
+		e.fail("read side failed with %v but no close event (events %v)", want, e.log.Events)
+	}
+	n.Close()
+}
+
+// drain: a serial port that drains its output on Close (a Write stuck in the device completes
+// only after a while, Close does not interrupt it); the read side fails meanwhile. The fresh
+// channel must neither be opened before the old one was reported closed nor earlier than the
+// reconnect delay after that.
+func (e *exec) drain() {
+	stall := []time.Duration{3 * time.Second, 6 * time.Second}[vmc.Choose(2, "drain-time")]
+	c0 := &vnet.FakeConn{Name: "conn0", WriteStallAt: 1, WriteStallFor: stall}
+	c1 := &vnet.FakeConn{Name: "conn1"}
+	ss := &sx.SerialScript{Conns: []*vnet.FakeConn{{Name: "probe"}, c0, c1}}
+	ss.Install()
+	n := &gomavlib.Node{Dialect: sx.Dialect(), OutVersion: gomavlib.V2, OutSystemID: 10, HeartbeatDisable: true,
+		Endpoints: []gomavlib.EndpointConf{gomavlib.EndpointSerial{Device: "/dev/ttyFAKE", Baud: 57600}}}
+	if err := n.Initialize(); err != nil {
+		e.fail("Initialize: %v", err)
+		return
+	}
+	vmc.GoApp("consumer", func() { e.consume(n) })
+	sleepUntil(500 * time.Millisecond)
+	if err := n.WriteMessageAll(&common.MessageHeartbeat{Type: 2}); err != nil {
+		e.fail("WriteMessageAll: %v", err)
+	}
+	sleepUntil(time.Second)
+	c0.FailRead(errReset)
+	sleepUntil(15 * time.Second)
+	var seq []string
+	open, opens := 0, 0
+	var closeAt, reopenAt time.Duration = -1, -1
+	for _, ev := range e.evs {
+		switch ev.what {
+		case "open":
+			open++
+			opens++
+			seq = append(seq, fmt.Sprintf("open@%v", ev.at))
+			if opens == 2 {
+				reopenAt = ev.at
+			}
+		case "close":
+			open--
+			seq = append(seq, fmt.Sprintf("close@%v", ev.at))
+			if closeAt < 0 {
+				closeAt = ev.at
+				if !errors.Is(ev.err, errReset) {
+					e.fail("close event carries %v, the read side failed with %v", ev.err, errReset)
+				}
+			}
+		}
+		if open > 1 {
+			e.fail("two channels of the serial endpoint open at once (the first one is still draining its output): %v", seq)
+			break
+		}
+	}
+	if closeAt < 0 {
+		e.fail("read side failed at 1s but no close event within 15s: %v", seq)
+	} else if reopenAt < 0 {
+		e.fail("no fresh channel within 15s after the close at %v: %v", closeAt, seq)
+	} else if reopenAt < closeAt+2*time.Second {
+		e.fail("fresh channel at %v, earlier than the reconnect delay (2s) after the close at %v", reopenAt, closeAt)
+	}
+	n.Close()
+}
+
 func (e *exec) Body() {
 	sx.ResetGlobals()
 	switch e.p.Scen {
@@ -198,6 +343,10 @@ func (e *exec) Body() {
 		e.readfault()
 	case "late":
 		e.late()
+	case "wrfault":
+		e.wrfault()
+	case "drain":
+		e.drain()
 	case "reconn":
 		e.reconn()
 	case "server":
@@ -211,7 +360,9 @@ func (e *exec) Body() {
 	vmc.Finish()
 }
 
-func (e *exec) fail(format string, a ...any) { e.problems = append(e.problems, fmt.Sprintf(format, a...)) }
+func (e *exec) fail(format string, a ...any) {
+	e.problems = append(e.problems, fmt.Sprintf(format, a...))
+}
 
 // ---- reconnecting endpoints
 func (e *exec) reconn() {
@@ -337,7 +488,7 @@ func (e *exec) reconn() {
 		if closes[oi].ch != opens[oi].ch {
 			e.fail("close event %d belongs to another channel than open event %d", oi, oi)
 		}
-		if closes[oi].err != a.err {
+		if !errors.Is(closes[oi].err, a.err) {
 			e.fail("close event of connection %d carries %v, the transport failed with %v", i, closes[oi].err, a.err)
 		}
 		if opens[oi].at != att[i] {
@@ -460,7 +611,7 @@ func (e *exec) server() {
 			nclosed++
 			found := false
 			for i := range peers {
-				if wantErr[i] != nil && closeErr[ch] == wantErr[i] {
+				if wantErr[i] != nil && errors.Is(closeErr[ch], wantErr[i]) {
 					found = true
 				}
 			}
@@ -657,6 +808,10 @@ func variants(thorough bool) []sx.Variant {
 	for _, k := range []string{"custom", "broadcast"} {
 		ps = append(ps, params{Scen: "readfault", Kind: k})
 	}
+	for _, k := range []string{"custom", "serial", "tcpclient", "tcpserver"} {
+		ps = append(ps, params{Scen: "wrfault", Kind: k})
+	}
+	ps = append(ps, params{Scen: "drain", Kind: "serial"})
 	for _, k := range []string{"tcpserver", "udpserver"} {
 		ps = append(ps, params{Scen: "server", Kind: k})
 	}
@@ -671,6 +826,8 @@ func variants(thorough bool) []sx.Variant {
 		switch p.Scen {
 		case "idle", "late", "readfault":
 			bound = 2
+		case "wrfault", "drain":
+			bound = 1
 		case "server":
 			bound = 1
 		}
